@@ -13,6 +13,10 @@
     reader's `DecodeRow` makes of the REVERSED rendered row (first attempt on the middle row).  The row read-back theorems
     do not talk about reversed symbols; what holds in general is the trichotomy.  `oned_upside_down_reads_partial`: when
     that first attempt is refused with a reader exception, the content comes back with ORIENTATION 180.
+    FULL for Code 39 (`oned_upside_down_reads_code39`): the reversed symbol is refused by `code39FindAsteriskPattern` —
+    the first window is the reversed asterisk, whose narrow/wide word differs from the asterisk's (table condition
+    `revStar39`, per-run obligation), every later window fails the quiet-zone test (≤ 2 modules of white in front of a
+    window ≥ 9 modules wide).
     That the first attempt IS refused is NOT a property of the pattern tables alone for Code 128 and Code 93: reversed
     DATA can contain a window that passes the start test (Code 128: e.g. the reversed pair (98, 73) at 2 px/module passes
     `code128FindStartPattern`'s variance and quiet-zone test; Code 93: a reversed first data character 1, 2, 3, 7, L, M
@@ -21,6 +25,7 @@
 -/
 import Gzx.Properties.C03Image
 import Gzx.Proofs.Image1DWhite
+import Gzx.Proofs.Image1DRev39
 namespace Gzx.Properties.C09Image
 open Gzx Gzx.OneD Gzx.Image1D Gzx.Image1DPath Gzx.Image1DWhite Gzx.Properties.C03Image
 
@@ -100,6 +105,43 @@ theorem oned_upside_down_reads_code39_partial (E : Env) (hT : Row39.WF39Row E.T 
     (fun lq s rq _ hs _ _ _ => by
       obtain ⟨e, he, hf⟩ := hrefuse lq s rq hs
       exact ⟨e, he, by simp only [scanSym, rowRead, hf, Except.map]⟩) binz th
+
+/-- **`oned_upside_down_reads_code39`** — FULL: every non-empty ASCII content the Code 39 writer accepts, every width
+    ≤ 2^30-1 (twice the scale must fit the classifier's `math.MaxInt32`), every height ≥ 0, margin ≥ 2, either binariser,
+    TRY_HARDER or not: the written image turned by 180° is read as the same content with ORIENTATION 180, from the
+    reversed middle row.  Table conditions: `WF39Row` and `revStar39` (asterisk ≠ its mirror image). -/
+theorem oned_upside_down_reads_code39 (E : Env) (hT : Row39.WF39Row E.T = true)
+    (hrev : Image1DRev39.revStar39 E.T = true) (contents : List Nat)
+    (mods : List Bool) (hne : contents ≠ []) (hascii : ∀ c ∈ contents, c < 128) (h : code39Modules E.T contents = .ok mods)
+    (width height : Nat) (hw30 : width ≤ 1073741823) (margin : Option Nat) (hm : 2 ≤ margin.getD 10)
+    (binz : Binz) (th : Bool) :
+    imagePath E .code39 contents width height (margin.map Int.ofNat) none .upsideDown binz (ext39Of E.T contents) th =
+      .ok ⟨.code39, contents, max 1 height / 2, true, false, some 180⟩ := by
+  have f := Row39.wf39Facts E.T hT
+  have hR := code39_readable E hT contents mods hne hascii h width height (by omega) margin hm
+  -- the module pattern is the run list of a symbol
+  have hmods : ∃ syms, mods = appendPattern (Row39.symbol39 E.T syms) true := by
+    have h' := h
+    unfold code39Modules at h'
+    simp only [bind, Except.bind] at h'
+    split at h'
+    · cases h'
+    · rename_i syms hsy
+      have hlt : ∀ i ∈ syms, i < 43 := by
+        intro i hi
+        have := C03Row39.code39Symbols_lt E.T contents syms hsy i hi
+        rw [f.alphaLen] at this
+        exact this
+      rw [Row39.code39Draw_runs E.T f syms hlt] at h'
+      cases h'
+      exact ⟨syms, rfl⟩
+  obtain ⟨syms, rfl⟩ := hmods
+  exact upside_down_of_readable hR
+    (fun lq s rq _ hs _ _ hsw =>
+      ⟨.notFound, rfl, by
+        simp only [scanSym, rowRead,
+          Image1DRev39.c39_reversed_refused E.T hT hrev syms lq s rq hs (by omega) false (ext39Of E.T contents), Except.map]⟩)
+    binz th
 
 /-! ## sideways -/
 
@@ -204,6 +246,7 @@ example : (code128Modules refEnv.T [65, 49, 50, 51, 52, 97] none).map (fun mods 
     .ok (true, true) := by decide +kernel
 example : imagePath refEnv .code128 [65, 49, 50, 51, 52, 97] 0 2 none none .upsideDown .hybrid false false =
     .ok ⟨.code128, [65, 49, 50, 51, 52, 97], 1, true, false, some 180⟩ := by decide +kernel
+example : Image1DRev39.revStar39 refEnv.T = true := by decide
 example : imagePath refEnv .code39 (bytesOf "A1") 0 3 none none .upsideDown .global false true =
     .ok ⟨.code39, bytesOf "A1", 1, true, false, some 180⟩ := by decide +kernel
 example : imagePath refEnv .code93 (bytesOf "1a") 0 1 none none .upsideDown .hybrid false false =
